@@ -44,7 +44,11 @@ func c12CopyDir(src, dst string) error {
 		if err != nil {
 			continue // removed since the listing: as if the kill came after the removal
 		}
-		out, err := os.Create(filepath.Join(dst, e.Name()))
+		mode := os.FileMode(0o644)
+		if fi, err := in.Stat(); err == nil {
+			mode = fi.Mode().Perm()
+		}
+		out, err := os.OpenFile(filepath.Join(dst, e.Name()), os.O_CREATE|os.O_WRONLY|os.O_TRUNC, mode)
 		if err != nil {
 			in.Close()
 			return err
@@ -122,7 +126,28 @@ func c12Search(mgr *Manager, qs string) ([]string, error) {
 	return ids, err
 }
 
-type c12Tag struct{ def, color string }
+type c12Tag struct{ def, color, conv string } // conv: the attached converters, joined
+
+// the converter installed in the converter directory: every chunk in upper case
+const c12Script = `#!/usr/bin/env python3
+import sys, json, base64
+while True:
+    line = sys.stdin.buffer.readline()
+    if not line:
+        break
+    json.loads(line)
+    chunks = []
+    while True:
+        l = sys.stdin.buffer.readline().strip()
+        if not l:
+            break
+        chunks.append(json.loads(l))
+    for c in chunks:
+        c["Content"] = base64.b64encode(base64.b64decode(c["Content"]).upper()).decode()
+        sys.stdout.write(json.dumps(c) + "\n")
+    sys.stdout.write("\n{}\n")
+    sys.stdout.flush()
+`
 
 func TestC12Standin(t *testing.T) {
 	nHist, _ := strconv.Atoi(os.Getenv("C12_HISTORIES"))
@@ -153,6 +178,9 @@ func TestC12Standin(t *testing.T) {
 	defs := []string{"cport:1:", "sport:9001", "cdata:foo", "id:0:3", "-cport:7", "sport:80"}
 	for h := 0; h < nHist; h++ {
 		d := makeTempdirs(t)
+		if err := os.WriteFile(filepath.Join(d.converter, "up"), []byte(c12Script), 0o775); err != nil {
+			t.Fatal(err)
+		}
 		mgr := makeManager(t, d)
 		var ops []string
 		tags := map[string]c12Tag{}
@@ -160,6 +188,22 @@ func TestC12Standin(t *testing.T) {
 		endpoints := map[string]bool{}
 		hooks := map[string]bool{}
 		nImports := 0
+		if h == 0 {
+			// the first history starts with a tag that has the converter attached and then gets a definition with a
+			// payload filter (if the service accepts that, the attachment has to survive a restart like any other)
+			if mgr.AddTag("tag/a", "red", "sport:80") == nil {
+				tags["tag/a"] = c12Tag{"sport:80", "red", ""}
+				ops = append(ops, `AddTag(tag/a,"sport:80",red)`)
+				if mgr.UpdateTag("tag/a", UpdateTagOperationSetConverter([]string{"up"})) == nil {
+					tags["tag/a"] = c12Tag{"sport:80", "red", "up"}
+					ops = append(ops, "SetConverter(tag/a,[up])")
+				}
+				if mgr.UpdateTag("tag/a", UpdateTagOperationUpdateQuery("cdata:foo")) == nil {
+					tags["tag/a"] = c12Tag{"cdata:foo", "red", tags["tag/a"].conv}
+					ops = append(ops, `UpdateQuery(tag/a,"cdata:foo")`)
+				}
+			}
+		}
 		for step := 0; step < histLen; step++ {
 			switch r := rng.Intn(10); {
 			case r < 4:
@@ -198,8 +242,18 @@ func TestC12Standin(t *testing.T) {
 				col := []string{"red", "blue"}[rng.Intn(2)]
 				if _, ok := tags[n]; !ok {
 					if mgr.AddTag(n, col, def) == nil {
-						tags[n] = c12Tag{def, col}
+						tags[n] = c12Tag{def, col, ""}
 						ops = append(ops, fmt.Sprintf("AddTag(%s,%q,%s)", n, def, col))
+					}
+				} else if rng.Intn(4) == 0 {
+					// attach or detach the converter
+					set, conv := []string{"up"}, "up"
+					if tags[n].conv != "" {
+						set, conv = []string{}, ""
+					}
+					if mgr.UpdateTag(n, UpdateTagOperationSetConverter(set)) == nil {
+						tags[n] = c12Tag{tags[n].def, tags[n].color, conv}
+						ops = append(ops, fmt.Sprintf("SetConverter(%s,%v)", n, set))
 					}
 				} else if rng.Intn(4) == 0 {
 					if mgr.DelTag(n) == nil {
@@ -207,7 +261,7 @@ func TestC12Standin(t *testing.T) {
 						ops = append(ops, fmt.Sprintf("DelTag(%s)", n))
 					}
 				} else if mgr.UpdateTag(n, UpdateTagOperationUpdateQuery(def)) == nil {
-					tags[n] = c12Tag{def, tags[n].color}
+					tags[n] = c12Tag{def, tags[n].color, tags[n].conv}
 					ops = append(ops, fmt.Sprintf("UpdateQuery(%s,%q)", n, def))
 				}
 			case r < 7:
@@ -328,7 +382,7 @@ func TestC12Standin(t *testing.T) {
 				// tags acknowledged before the kill
 				got := map[string]c12Tag{}
 				for _, ti := range m2.ListTags() {
-					got[ti.Name] = c12Tag{ti.Definition, ti.Color}
+					got[ti.Name] = c12Tag{ti.Definition, ti.Color, strings.Join(ti.Converters, ",")}
 				}
 				var names []string
 				for n := range wantTags {
@@ -339,7 +393,7 @@ func TestC12Standin(t *testing.T) {
 					if g, ok := got[n]; !ok {
 						fail("tag-lost", hist, fmt.Sprintf("acknowledged tag %s := %q is gone after the restart (tags: %v)", n, wantTags[n].def, got))
 					} else if g != wantTags[n] {
-						fail("tag-lost", hist, fmt.Sprintf("tag %s is %q/%s after the restart, acknowledged was %q/%s", n, g.def, g.color, wantTags[n].def, wantTags[n].color))
+						fail("tag-lost", hist, fmt.Sprintf("tag %s is %q/%s converters [%s] after the restart, acknowledged was %q/%s converters [%s]", n, g.def, g.color, g.conv, wantTags[n].def, wantTags[n].color, wantTags[n].conv))
 					}
 				}
 				for n := range got {
@@ -409,11 +463,11 @@ func TestC12Standin(t *testing.T) {
 				settings(m3, "after a second restart")
 				got = map[string]c12Tag{}
 				for _, ti := range m3.ListTags() {
-					got[ti.Name] = c12Tag{ti.Definition, ti.Color}
+					got[ti.Name] = c12Tag{ti.Definition, ti.Color, strings.Join(ti.Converters, ",")}
 				}
 				for _, n := range names {
 					if g, ok := got[n]; !ok || g != wantTags[n] {
-						fail("tag-lost", hist, fmt.Sprintf("after a second restart tag %s is %q/%s (present=%v), acknowledged was %q/%s", n, g.def, g.color, ok, wantTags[n].def, wantTags[n].color))
+						fail("tag-lost", hist, fmt.Sprintf("after a second restart tag %s is %q/%s converters [%s] (present=%v), acknowledged was %q/%s converters [%s]", n, g.def, g.color, g.conv, ok, wantTags[n].def, wantTags[n].color, wantTags[n].conv))
 					}
 				}
 				c12Quiet(m3, 10*time.Second)
